@@ -258,14 +258,14 @@ func c11Gen(race bool) *rapid.Generator[c11Case] {
 			c.Faults.ErrKind = rapid.IntRange(0, 5).Draw(t, "errKind")
 		case 1:
 			c.Faults.WriterFailAt = rapid.IntRange(0, 3*nroots).Draw(t, "writerAt")
-			c.Faults.WriterShort = rapid.IntRange(0, 2).Draw(t, "short")
+			c.Faults.WriterShort = rapid.IntRange(-1, 2).Draw(t, "short")
 			c.Faults.ErrKind = rapid.IntRange(0, 5).Draw(t, "errKind")
 		case 2:
 			c.Faults.CallbackFailAt = rapid.IntRange(0, 3*nroots).Draw(t, "cbAt")
 			c.Faults.CbErrKind = rapid.IntRange(0, 7).Draw(t, "cbErr")
 		}
 		// the reader / writer as the library sees them: plain; io.WriterTo + io.StringWriter; a reader that is also an io.Closer
-		c.Faults.IOKind = rapid.SampledFrom([]int{0, 0, 1, 2}).Draw(t, "ioKind")
+		c.Faults.IOKind = rapid.SampledFrom([]int{0, 0, 1, 2, 5}).Draw(t, "ioKind")
 		switch rapid.IntRange(0, 9).Draw(t, "cancel") {
 		case 8:
 			c.Cancel = ops.Cancel{Kind: "customctx"}
